@@ -305,7 +305,9 @@ pub fn c08(spec: &WorldSpec, ex: &Exec) -> Option<Viol> {
                     if let Some(fr) = innermost_send(stack) {
                         if let Some(pf) = pulls.iter_mut().find(|p| p.start == fr.start) {
                             *pf.counts.entry(*s).or_insert(0) += 1;
-                            if !pf.eligible.contains(s) {
+                            // a member that greeted while the broadcast was in progress may be included
+                            let live_now = subs[*s as usize].greeted_at.is_some() && !subs[*s as usize].sent_term && !subs[*s as usize].sent_err;
+                            if !pf.eligible.contains(s) && !live_now {
                                 found = Some(viol(spec, "pull-sent-to-member-not-live", i, format!("a sink Pull was relayed to member sub {s}, which had not greeted or had completed")));
                             }
                         }
